@@ -31,14 +31,14 @@ def gen_cases(ctx):
     for seq in itertools.product(["0c", "0d", "1c", "1d", "1r", "0r"], repeat=6 if th else 4):
         cases.append(("ex-clone-vs-drop", "ex 2 " + " ".join(prelude + list(seq))))
     # (c) from the initial state (one handle, thread 0)
-    for seq in itertools.product(alpha2, repeat=4 if th else 3):
+    for seq in itertools.product(alpha2, repeat=3):
         cases.append(("ex-initial", "ex 2 " + " ".join(seq)))
     # (d) 3 threads
     alpha3 = ["%d%s" % (t, o) for t in (0, 1, 2) for o in OPS]
     for seq in itertools.product(alpha3, repeat=3 if th else 2):
         cases.append(("ex-3threads", "ex 3 " + " ".join(["0c", "0c", "0g", "1t", "0c", "0c", "0g", "2t"] + list(seq))))
     # (e) random long runs, 2-5 threads
-    for i in range(6000 if th else 500):
+    for i in range(4000 if th else 500):
         n = r.choice([2, 3, 3, 4, 5])
         cases.append(("random", "rnd %d %d %d" % (n, r.next() >> 1, r.choice([30, 60, 120, 240]))))
     return cases
@@ -69,14 +69,12 @@ def run(ctx):
     cases = gen_cases(ctx)
     stress_lines = ["stress 4 50000", "stress 8 20000"] if not ctx.thorough else ["stress 4 1000000", "stress 8 400000", "stress 16 100000"]
     rc, lines, err = conc_util.run_parallel(binp, [line for (_, line) in cases])
-    rcs, slines, errs = conc_util.run_parallel(binp, stress_lines, nproc=1)
-    lines = lines + slines if len(lines) == len(cases) else lines
-    out = ""
-    if (rc not in (0, 3)) or (rc == 0 and len(lines) != len(cases) + len(stress_lines)) or not lines:
-        ctx.oblige("harness:run", False, "rc=%d lines=%d/%d %s" % (rc, len(lines), len(cases), (out[-600:] + err[-1500:])))
+    if (rc not in (0, 3)) or (rc == 0 and len(lines) != len(cases)) or not lines:
+        ctx.oblige("harness:run", False, "rc=%d lines=%d/%d %s" % (rc, len(lines), len(cases), err[-1500:]))
         return
-    stress_out = lines[len(cases):]
-    lines = lines[:len(cases)]
+    rcs, stress_out, errs = conc_util.run_parallel(binp, stress_lines, nproc=1, timeout=900)
+    if len(stress_out) < len(stress_lines):
+        stress_out.append("stress crashed (rc=%d) %s" % (rcs, errs[-300:].replace("\n", " ")))
     results, bad = [], []
     for i, l in enumerate(lines):
         parts = l.split()
@@ -88,8 +86,6 @@ def run(ctx):
             bad.append(i)
     cases = cases[:len(results)]
     stress_bad = [l for l in stress_out if l != "stress ok"]
-    if rc == 0:
-        ctx.oblige("harness:stress-complete", len(stress_out) == len(stress_lines), "stress runs missing")
 
     def replay_of(i):
         fam, line = cases[i]
